@@ -483,6 +483,44 @@ def handleStream (inp impl : Json) : Verdict :=
     | [] => { agree := agreeChecks && agreeReader, holds := true, model := model, cls := cls,
               nontrivial := ilines.any (fun ls => !ls.isEmpty) }
 
+/-! ### the reference client's feedback (op `clientfb`) -/
+
+open ConfModel.FeedbackStream in
+def handleClientFb (inp impl : Json) : Verdict :=
+  let cases := (arr (field inp "cases")).map fun c =>
+    (str (field c "name"), bool (field c "mismatch"), (arr (field c "fb")).map unrle)
+  let pairsOf := fun (j : Json) => (arr j).map fun p => match arr p with | [n, m] => (str n, unrle m) | _ => ("", "")
+  let sidebandI := pairsOf (field impl "sideband")
+  let merged := pairsOf (field impl "merged")
+  let hang := bool (field impl "hang")
+  let recs := clientRecords (cases.map fun (n, _, fb) => (n.toList, fb.map String.toList))
+  let agree := !hang && cases.all (fun (n, _, _) =>
+      ((sidebandI.find? (·.1 == n)).map (·.2)) == (sideband recs n.toList).map String.ofList) &&
+    sidebandI.all (fun p => cases.any (fun c => c.1 == p.1))
+  let model := toJson (cases.filterMap fun (n, _, _) => (sideband recs n.toList).map fun m => [n, toString m.length])
+  if hang then { agree := false, holds := false, model := model, why := "the batch did not end" } else
+  -- the feedback of a case is attributed to that case and to no other
+  let wrong := cases.filterMap fun (n, mismatch, fb) =>
+    let held := (sidebandI.find? (·.1 == n)).map (·.2)
+    let failure := (merged.find? (·.1 == n)).map (·.2)
+    match fb.getLast? with
+    | none =>
+      if held.isSome then some s!"test case {n.quote}: its response carried no feedback but the runner holds {((held.getD "").take 80).toString.quote} for it"
+      else if !mismatch && failure.isSome then some s!"test case {n.quote} passed without feedback but is reported as failed: {((failure.getD "").take 80).toString.quote}"
+      else none
+    | some last =>
+      if held != some last then
+        some s!"test case {n.quote}: the last feedback of its response is {(last.take 80).toString.quote} ({last.length} bytes), the runner holds {(held.map fun h => (h.take 80).toString)} for it"
+      else match failure with
+        | none => some s!"test case {n.quote} got feedback but is not reported as failed"
+        | some f =>
+          if (!mismatch && f == last) || (mismatch && f.startsWith (last ++ "; ")) then none
+          else some s!"test case {n.quote}: its failure after the merge does not carry its feedback: {(f.take 80).toString.quote}"
+  match wrong with
+  | w :: _ => { agree := agree, holds := false, model := model, why := w }
+  | [] => { agree := agree, holds := true, model := model, nontrivial := cases.any (fun c => !c.2.2.isEmpty),
+            cls := if cases.any (fun c => c.2.2.any (fun m => m.length > 65536)) then "message>64KiB" else "short" }
+
 def handle : Handler := fun op inp impl =>
   if !(isNull (field impl "panic")) then
     { agree := false, holds := false, why := "panic: " ++ str (field impl "panic") } else
@@ -609,6 +647,7 @@ def handle : Handler := fun op inp impl =>
   | "overlap" => handleOverlap inp impl
   | "realoverlap" => handleOverlap inp impl
   | "stream" => handleStream inp impl
+  | "clientfb" => handleClientFb inp impl
   | "render" =>
     match aspects (field inp "e"), aspects (field inp "a") with
     | some e, some a =>
